@@ -5,6 +5,7 @@ use std::collections::{BTreeMap, HashMap, HashSet};
 use std::net::{IpAddr, Ipv4Addr, Ipv6Addr, SocketAddr, UdpSocket};
 use std::time::{Duration, Instant};
 
+use aquatic_common::access_list::{update_access_list, AccessListMode};
 use aquatic_common::{CanonicalSocketAddr, SecondsSinceServerStart, ValidUntil};
 use aquatic_udp::config::Config;
 use aquatic_udp_protocol::{AnnounceEvent, AnnounceRequest, ConnectionId, InfoHash, NumberOfBytes, NumberOfPeers, PeerId, PeerKey, Port, TransactionId};
@@ -277,8 +278,8 @@ fn bitflips() -> Vec<(String, Vec<u8>)> {
     v
 }
 
-fn run_backend(run: &mut Run, uring: bool, workers: usize, stale: bool, thorough: bool) -> (u64, u64) {
-    let backend = format!("{}{}-w{}", if uring { "io_uring" } else { "mio" }, if stale { "-age0" } else { "" }, workers);
+fn run_backend(run: &mut Run, uring: bool, workers: usize, stale: bool, thorough: bool, access: Option<AccessListMode>) -> (u64, u64) {
+    let backend = format!("{}{}{}-w{}", if uring { "io_uring" } else { "mio" }, if stale { "-age0" } else { "" }, match access { Some(AccessListMode::Allow) => "-allow", Some(AccessListMode::Deny) => "-deny", _ => "" }, workers);
     let mut config = Config::default();
     config.network.use_io_uring = uring;
     config.protocol.max_scrape_torrents = 70;
@@ -287,7 +288,32 @@ fn run_backend(run: &mut Run, uring: bool, workers: usize, stale: bool, thorough
         config.cleaning.max_connection_age = 0;
     }
     let max_scrape = config.protocol.max_scrape_torrents;
+    // access list: announce hashes 1 and 4 are forbidden (deny: listed; allow: everything else the alphabet uses is listed)
+    let listed: Vec<[u8; 20]> = match access {
+        Some(AccessListMode::Deny) => vec![announce_hash(1), announce_hash(4)],
+        Some(AccessListMode::Allow) => vec![announce_hash(2), announce_hash(3), announce_hash(5), announce_hash(9)],
+        _ => vec![],
+    };
+    let forbidden = move |h: &[u8; 20]| match access {
+        Some(AccessListMode::Deny) => listed.contains(h),
+        Some(AccessListMode::Allow) => !listed.contains(h),
+        _ => false,
+    };
+    let list_dir = tempfile::tempdir().unwrap();
+    if let Some(mode) = access {
+        let path = list_dir.path().join("list.txt");
+        let lines: Vec<String> = match mode {
+            AccessListMode::Deny => vec![hex::encode(announce_hash(1)), hex::encode(announce_hash(4))],
+            _ => vec![hex::encode(announce_hash(2)), hex::encode(announce_hash(3)), hex::encode(announce_hash(5)), hex::encode(announce_hash(9))],
+        };
+        std::fs::write(&path, lines.join("\n") + "\n").unwrap();
+        config.access_list.mode = mode;
+        config.access_list.path = path;
+    }
     let t = UdpTracker::start(config, workers);
+    if access.is_some() {
+        update_access_list(&t.config.access_list, &t.state.access_list).unwrap_or_else(|e| machinery_failure(&format!("access list not loaded: {:#}", e)));
+    }
     preload(&t);
     let ips: Vec<IpAddr> = vec![IpAddr::V4(Ipv4Addr::new(127, 0, 0, 1)), IpAddr::V4(Ipv4Addr::new(127, 0, 0, 2)), IpAddr::V4(Ipv4Addr::new(127, 0, 0, 3)), IpAddr::V6(Ipv6Addr::LOCALHOST)];
     let clients: Vec<Client> = ips
@@ -349,14 +375,18 @@ fn run_backend(run: &mut Run, uring: bool, workers: usize, stale: bool, thorough
         Announce,
         Scrape(Vec<(i32, i32, i32)>),
         AtMostError,
+        /// exactly one error reply and no state (announce for a hash the access list forbids, with a valid connection id)
+        Error,
     }
     let expectation = |r: &Runner, c: &Case| -> (Exp, bool) {
         let dec = ref_decode_request(&c.bytes, max_scrape);
         let cid_valid = c.bytes.len() >= 8 && r.cid_valid(c.client, i64::from_be_bytes(c.bytes[..8].try_into().unwrap()));
         let e = match dec {
             Some(RefRequest::Connect { .. }) => Exp::Connect,
-            Some(RefRequest::Announce(_)) => {
-                if cid_valid {
+            Some(RefRequest::Announce(a)) => {
+                if cid_valid && forbidden(&a.info_hash) {
+                    Exp::Error
+                } else if cid_valid {
                     Exp::Announce
                 } else {
                     Exp::None
@@ -382,8 +412,8 @@ fn run_backend(run: &mut Run, uring: bool, workers: usize, stale: bool, thorough
     let exps: Vec<(Exp, bool)> = cases.iter().map(|c| expectation(&r, c)).collect();
 
     // ---- phase A: everything that must be rejected; swarm state must not change
-    let idx_a: Vec<usize> = (0..cases.len()).filter(|i| matches!(exps[*i].0, Exp::None | Exp::AtMostError)).collect();
-    let idx_b: Vec<usize> = (0..cases.len()).filter(|i| !matches!(exps[*i].0, Exp::None | Exp::AtMostError)).collect();
+    let idx_a: Vec<usize> = (0..cases.len()).filter(|i| matches!(exps[*i].0, Exp::None | Exp::AtMostError | Exp::Error)).collect();
+    let idx_b: Vec<usize> = (0..cases.len()).filter(|i| !matches!(exps[*i].0, Exp::None | Exp::AtMostError | Exp::Error)).collect();
     let before = dump_fp(&t);
     let cases_a: Vec<Case> = idx_a.iter().map(|i| cases[*i].clone()).collect();
     let mut replies = r.send_all(&cases_a);
@@ -445,6 +475,15 @@ fn run_backend(run: &mut Run, uring: bool, workers: usize, stale: bool, thorough
                     }
                 }
                 outcomes.insert(format!("{}:error-or-none:{}", kind, reps.len()));
+            }
+            Exp::Error => {
+                match &parsed {
+                    Some(RefResponse::Error { .. }) if reps.len() == 1 => {}
+                    // the same datagram sizes as the io_uring request-buffer finding: same signature family
+                    _ if reps.is_empty() && c.bytes.len() >= 480 => run.violation(format!("udp/{}/no-reply-to-large-announce/{}", be, size_class(c.bytes.len())), format!("[{}] well-formed announce ({} bytes, hash forbidden by the access list) with a valid connection id not answered ({})", backend, c.bytes.len(), c.label), detail.clone()),
+                    _ => run.violation(format!("udp/{}/forbidden-announce-not-refused", be), format!("[{}] announce for a hash the access list forbids, with a valid connection id, not answered by exactly one error reply ({}); replies: {}", backend, c.label, reps.len()), detail.clone()),
+                }
+                outcomes.insert(format!("{}:error", kind));
             }
             Exp::Connect => {
                 match &parsed {
@@ -577,7 +616,7 @@ fn port_zero_probe(uring: bool) -> Option<Result<u64, String>> {
 
 pub fn main(args: &Args) -> ! {
     let mut run = Run::new(args, "exploration");
-    run.set("rule", "datagram alphabet (connect shapes; announce x events / numwant extremes / port 0 / extension bytes / 97 bytes / unknown event; scrape x {1,2,22,23,24,25,70,71,74} hashes, 0 hashes, trailing bytes; unknown action; every truncation length; every single-bit flip of one announce and one scrape) x connection id {valid, valid for another source, far-future, forged, stale (tracker with max_connection_age 0)} x sources 127.0.0.1/.2, ::1, sent to real socket workers (mio and io_uring, 1 and 2 workers); every reply attributed by transaction id; absence established by a fence connect on the same socket; expectation from the independent BEP 15 decoder and a clone of the validator. distinct_nontrivial = distinct (datagram kind, outcome) pairs");
+    run.set("rule", "datagram alphabet (connect shapes; announce x events / numwant extremes / port 0 / extension bytes / 97 bytes / unknown event; scrape x {1,2,22,23,24,25,70,71,74} hashes, 0 hashes, trailing bytes; unknown action; every truncation length; every single-bit flip of one announce and one scrape) x connection id {valid, valid for another source, far-future, forged, stale (tracker with max_connection_age 0)} x access list {off, deny, allow: two of the announce hashes forbidden} x sources 127.0.0.1/.2, ::1, sent to real socket workers (mio and io_uring, 1 and 2 workers); every reply attributed by transaction id; absence established by a fence connect on the same socket; expectation from the independent BEP 15 decoder and a clone of the validator. distinct_nontrivial = distinct (datagram kind, outcome) pairs");
     run.assume("thread schedule inside the socket workers is not controlled; datagrams are fenced per socket");
     run.assume("source port 0: injected through a raw IPPROTO_UDP socket and sniffed when raw sockets are available (see source_port_zero in the coverage), otherwise covered at parser / handler level by C12");
     let th = args.tier.thorough();
@@ -586,14 +625,14 @@ pub fn main(args: &Args) -> ! {
     }
     let mut evals = 0;
     let mut outcomes = 0;
-    let mut configs: Vec<(bool, usize, bool)> = vec![(false, 1, false), (true, 1, false), (false, 1, true)];
+    let mut configs: Vec<(bool, usize, bool, Option<AccessListMode>)> = vec![(false, 1, false, None), (true, 1, false, None), (false, 1, true, None), (false, 1, false, Some(AccessListMode::Deny)), (true, 1, false, Some(AccessListMode::Allow))];
     if th {
-        configs.extend([(false, 2, false), (true, 2, false), (true, 1, true)]);
+        configs.extend([(false, 2, false, None), (true, 2, false, None), (true, 1, true, None), (false, 1, false, Some(AccessListMode::Allow)), (true, 1, false, Some(AccessListMode::Deny))]);
     } else {
-        configs.push((true, 2, false));
+        configs.push((true, 2, false, None));
     }
-    for (uring, workers, stale) in configs {
-        let (e, o) = run_backend(&mut run, uring, workers, stale, th);
+    for (uring, workers, stale, access) in configs {
+        let (e, o) = run_backend(&mut run, uring, workers, stale, th, access);
         evals += e;
         outcomes += o;
     }
